@@ -967,7 +967,9 @@ func main() {
 	r.Isolate("repair", func() {
 		if r.Thorough() {
 			checkRepairJitterPar(r, "tetra", named("tetra"), 3)
-			checkRepairJitterPar(r, "octa", named("octa"), 2)
+			// all 2^24 assignments x 8 shifts would be 134 million repairs (hours); every 17th pattern - 17 is coprime to
+			// the period of every face-vertex slot - still varies every slot against every other
+			checkRepairJitter(r, "octa", named("octa"), 2, 17)
 		} else {
 			checkRepairJitterPar(r, "tetra", named("tetra"), 2)
 			checkRepairJitter(r, "octa", named("octa"), 2, 257)
